@@ -1,3 +1,10 @@
 // Package checks holds one file per property (C01..C20); each registers an
 // mc.Check in its init function.
 package checks
+
+func clipS(s string, n int) string {
+	if len(s) > n {
+		return s[:n] + "…"
+	}
+	return s
+}
